@@ -137,7 +137,7 @@ def run_case(case, ctx):
     frame = bool(case.get("frame")) and kind in FRAME_OK
     # multivariate series: two columns over the same time index (the second an affine image of the first)
     T = (lambda s_: s_.astype(np.int64)) if integer else (lambda s_: s_)
-    W = (lambda s_: pd.DataFrame({"a": T(s_).values, "b": s_.values * 0.5 + 3.0}, index=s_.index)) if frame else T
+    W = (lambda s_: pd.DataFrame({"b": T(s_).values, "a": s_.values * 0.5 + 3.0}, index=s_.index)) if frame else T
     if frame:
         ctx.tag("input:multivariate-frame")
     tr = build(cfg)
@@ -178,6 +178,14 @@ def run_case(case, ctx):
         same = list(a1.index) == list(a2.index) and _close(np.asarray(a1, dtype=float), np.asarray(a2, dtype=float), 1e-12)
         ctx.check("fit_transform", same, "fit_transform:differs-from-fit-then-transform:" + kind, "fit_transform(z) != fit(z).transform(z)")
     # ---- intervening updates -------------------------------------------------------------------------------
+    frozen = kind in HAS_UPDATE and case["updates"] and not any(u[2] for u in case["updates"])
+    zt_before = None
+    if frozen:
+        # updates that keep the fitted parameters may also come between transform and inverse_transform: what was transformed before them is
+        # restored after them, and transforms to the same values
+        okb, zt_before = ctx.call("transform:exception:" + kind, tr.transform, W(y.copy()))
+        if not okb:
+            zt_before = None
     pos = n
     for gap, size, up in case["updates"]:
         if kind == "optional":
@@ -188,6 +196,17 @@ def run_case(case, ctx):
         if not ok:
             return
         pos = lo + size
+    if zt_before is not None:
+        okc, back = ctx.call("inverse_transform:exception:" + kind, tr.inverse_transform, zt_before.copy())
+        if okc:
+            fin = np.isfinite(np.asarray(zt_before, dtype=float))
+            ctx.check("roundtrip", _close(np.asarray(back, dtype=float)[fin], np.asarray(W(y), dtype=float)[fin]), "roundtrip:across-parameter-keeping-updates:" + kind,
+                      "what was transformed before update(update_params=False) calls is not restored by inverse_transform after them", updates=case["updates"])
+        okd, again = ctx.call("transform:exception:" + kind, tr.transform, W(y.copy()))
+        if okd:
+            ctx.check("roundtrip", _close(np.asarray(again, dtype=float), np.asarray(zt_before, dtype=float), 1e-10), "transform:changed-by-parameter-keeping-updates:" + kind,
+                      "update(update_params=False) changed what transform returns for the training series", updates=case["updates"])
+        ctx.tag("updates-between-transform-and-inverse")
     # ---- the stretch -----------------------------------------------------------------------------------------
     a, b = case["a"], case["b"]
     early = case["dseed"] % 4 == 1 and kind in ("deseason", "cdeseason", "boxcox", "log", "scaler", "optional", "cos")
